@@ -84,7 +84,7 @@ func alpmSeg(t *rapid.T, l string) string {
 	case 0, 1, 2, 3, 4:
 		return Num(t, l+"d", bigNum)
 	case 5, 6:
-		return Pick(t, l+"w", "a", "b", "alpha", "beta", "rc", "pre", "p", "git", "r", "A", "z")
+		return Pick(t, l+"w", "a", "b", "alpha", "beta", "rc", "pre", "p", "git", "r", "A", "z", "a", "b", "rc", "RC", "é", "Ω")
 	case 7:
 		return SmallNum(t, l+"d") + Pick(t, l+"w", "a", "b", "rc", "beta", "pre", "p")
 	case 8:
@@ -325,7 +325,7 @@ func cranV(t *rapid.T, l string) string {
 
 // ---------------------------------------------------------------- debian
 
-var debPieces = []string{".", ".", ".", "+", "~", "~~", "-", "a", "b", "A", "z", "rc", "beta", "+b", "~rc", "+dfsg", "ubuntu", "+really", ".~", "~~a"}
+var debPieces = []string{".", ".", ".", "+", "~", "~~", "-", "a", "b", "A", "z", "rc", "beta", "+b", "~rc", "+dfsg", "ubuntu", "+really", ".~", "~~a", ".", "+", "a", "é", "Ω", "١"}
 
 // DebianRun draws a run-structured string over [0-9A-Za-z.+~] (and '-' when hyphen is true).
 func DebianRun(t *rapid.T, l string, maxPieces int, hyphen bool) string {
@@ -555,7 +555,7 @@ func pypiV(t *rapid.T, l string) string {
 
 // ---------------------------------------------------------------- rpm
 
-var rpmPieces = []string{".", ".", ".", "+", "_", "~", "^", "~~", "a", "b", "A", "z", "rc", "beta", "git", "~rc", "^git", "el", "fc", "..", "._", "^~"}
+var rpmPieces = []string{".", ".", ".", "+", "_", "~", "^", "~~", "a", "b", "A", "z", "rc", "beta", "git", "~rc", "^git", "el", "fc", "..", "._", "^~", ".", "a", "~", "é", "Ω", "١"}
 
 // RpmRun draws a run-structured string over [0-9A-Za-z._+~^].
 func RpmRun(t *rapid.T, l string, maxPieces int) string {
